@@ -206,3 +206,37 @@ def eval_histogram():
 
 def lines_hit():
     return {k: sorted(v) for k, v in _lines_hit.items()}
+
+
+def provoke_failures():
+    """Every worker starts with a handful of library calls that are expected to raise (invalid specifications).  Global
+    state left behind by a failed call (disabled validators, half-initialised module tables) would otherwise only be met
+    by a workload that happens to fail first."""
+    n = 0
+    try:
+        from pyvaporation.mixtures import Composition, Mixtures
+        from pyvaporation.mixtures.uniquac_fitting import VLEPoint, VLEPoints, fit_vle
+        from pyvaporation.components import Components
+        from pyvaporation.membrane import Membrane
+        from pyvaporation.permeance import Permeance
+        from pyvaporation.pervaporation import Pervaporation
+        from pyvaporation.diffusion_curve import DiffusionCurve
+
+        data = VLEPoints(components=[Components.H2O, Components.EtOH],
+                         data=[VLEPoint(composition=Composition(p=0.5, type="molar"), pressures=(10.0, 20.0), temperature=330.0)])
+        calls = [
+            lambda: fit_vle(data, method="no-such-method"),
+            lambda: Composition(p=2.0, type="weight"),
+            lambda: Permeance(value=1.0, units="SI").convert("kg/(m2*h*kPa)"),
+            lambda: Pervaporation(Membrane("M"), Mixtures.H2O_EtOH).calculate_partial_fluxes(
+                330.0, Composition(p=0.5, type="weight"), 1e-4, 300.0, 1.0, Permeance(0.01), Permeance(0.001)),
+            lambda: DiffusionCurve(mixture=Mixtures.H2O_EtOH, membrane_name="M", feed_temperature=330.0, feed_compositions=[Composition(p=0.5, type="weight")]),
+        ]
+        for c in calls:
+            try:
+                c()
+            except Exception:
+                n += 1
+    except Exception:
+        pass
+    return n
